@@ -2,9 +2,15 @@
 // taken by the statically linked library: the clock is the model's clock.
 //   undo_driver replay <ops.ndjson> <out.ndjson>   ops: one JSON array of calls per line (from TLC)
 //   undo_driver random <seed> <count> <out.ndjson>  seeded random executions (arbitrary events)
+//   undo_driver app <ops.ndjson> <out.ndjson>       END TO END: the same scripts, but a "rec" becomes a message to a parameter port built with
+//                                                   the real macros (a: rParamI, b: rParamF, c: rParam); the port's /undo_change event is what gets
+//                                                   recorded, and a seek dispatches the history's messages back into the ports.  Logged per call as
+//                                                   op "set": whether an event was emitted, its old/new values, and the parameters afterwards.
 // Output: {"ev":[{op,...args, pos, entries:[{a,ty,old,new}], out:[{a,ty,v}]}]} per execution.
 #include <rtosc/undo-history.h>
 #include <rtosc/rtosc.h>
+#include <rtosc/ports.h>
+#include <rtosc/port-sugar.h>
 #include <ctime>
 #include <random>
 #include "vjson.hpp"
@@ -41,6 +47,36 @@ struct Exec {
     void finish(FILE *out, int sig) { ev.end_arr(); JW w; w.obj().key("ev").raw(ev.s).knum("sig", sig).knum("asan", vg_asan_hits).end_obj(); fprintf(out, "%s\n", w.s.c_str()); }
 };
 
+// ---- end to end: parameter ports -> /undo_change -> UndoHistory -> callback -> parameter ports
+struct UApp { int a = 0; float b = 0; char c = 0; int d = 0; int e = 0; static const rtosc::Ports ports; };
+#define rObject UApp
+const rtosc::Ports UApp::ports = {
+    rParamI(a, rLinear(-1000, 1000), "int parameter"),
+    rParamF(b, rLinear(-1000, 1000), "float parameter"),
+    rParam(c, "char parameter"),
+    rParamI(d, "int parameter without bounds"),
+    rParamI(e, rLinear(0, 100), "int parameter"),
+};
+#undef rObject
+struct AppExec : Exec {
+    UApp app; bool recording = true; bool got = false; long ev_old = 0, ev_new = 0;
+    struct Rt : rtosc::RtData { AppExec *x; char locbuf[256];
+        Rt(AppExec *x_) : x(x_) { memset(locbuf, 0, sizeof locbuf); loc = locbuf; loc_size = sizeof locbuf; obj = &x->app; }
+        using rtosc::RtData::reply; using rtosc::RtData::broadcast;
+        void reply(const char *msg) override { if (strcmp(msg, "/undo_change") || !x->recording) return;      // the library's default forwarding formatted the event
+            x->got = true; x->ev_old = val_of(msg, 1); x->ev_new = val_of(msg, 2); x->uh.recordEvent(msg); }
+        void broadcast(const char *) override {} };
+    AppExec() { uh.setCallback([this](const char *m) { outmsgs.push_back(std::string(m, rtosc_message_length(m, 256))); Rt d(this); UApp::ports.dispatch(m, d, true); }); }
+    void params(JW &w) { w.key("params").obj().knum("/a", app.a).knum("/b", (long)app.b).knum("/c", app.c).knum("/d", app.d).knum("/e", app.e).end_obj(); }
+    void set(const std::string &a, char ty, long v) {
+        char buf[128]; rtosc_arg_t arg[1]; if (ty == 'f') arg[0].f = (float)v; else arg[0].i = (int)v; char tags[2] = {ty, 0};
+        rtosc_amessage(buf, sizeof buf, a.c_str(), tags, arg);
+        outmsgs.clear(); got = false; ev_old = ev_new = 0; Rt d(this); UApp::ports.dispatch(buf, d, true);
+        ev.obj().kstr("op", "set").kstr("a", a).kstr("ty", std::string(1, ty)).knum("v", v).kbool("got_event", got).knum("ev_old", ev_old).knum("ev_new", ev_new).knum("matches", d.matches);
+        observe(ev); params(ev); ev.end_obj(); }
+    void seek2(int k) { outmsgs.clear(); recording = false; uh.seekHistory(k); recording = true; ev.obj().kstr("op", "seek").knum("k", k); observe(ev); params(ev); ev.end_obj(); }
+};
+
 int main(int argc, char **argv) {
     vg_init();
     if (argc < 4) return 2;
@@ -51,6 +87,15 @@ int main(int argc, char **argv) {
             int sig = vg_run(20, [&] { for (auto &o : ops.a) { const std::string &op = o["op"].s;
                 if (op == "rec") e.rec("/" + o["a"].s, o["ty"].s[0], (long)o["old"].num(), (long)o["new"].num());
                 else if (op == "seek") e.seek((int)o["k"].num()); else if (op == "tick") e.tick((int)o["d"].num()); } });
+            e.finish(out, sig); }
+        fclose(out); return 0;
+    }
+    if (mode == "app") {
+        FILE *f = fopen(argv[2], "r"); FILE *out = fopen(argv[3], "w"); if (!f || !out) return 2; std::string line;
+        while (read_line(f, line)) { if (line.empty()) continue; J ops = jparse(line); AppExec e;
+            int sig = vg_run(20, [&] { for (auto &o : ops.a) { const std::string &op = o["op"].s;
+                if (op == "rec" || op == "set") e.set("/" + o["a"].s, o["ty"].s[0], (long)o[op == "rec" ? "new" : "v"].num());
+                else if (op == "seek") e.seek2((int)o["k"].num()); else if (op == "tick") e.tick((int)o["d"].num()); } });
             e.finish(out, sig); }
         fclose(out); return 0;
     }
